@@ -303,7 +303,8 @@ theorem pivot_cell (t : Table) (x : List String) (y z : String) (agg : Agg) (zs 
   simp only [Table.pivot, hn, hx', or_self, Bool.false_eq_true, if_false, hk, hz]
   simp only [xyg, xg, ys] at hlab ⊢
   rw [hlab]
-  simp only [hnd, not_true_eq_false, if_false]
+  have hxn : x.Nodup := (List.nodup_append.1 hnd).1
+  simp only [hxn, hnd, not_true_eq_false, if_false]
   congr 3
   apply List.map_congr_left
   intro p _
@@ -552,8 +553,9 @@ theorem unpivot_pivot_multiset (t : Table) (x : List String) (y z : String) (zs 
       rw [this]
 
 /-- **literal form** of `unpivot_pivot_multiset` for tables whose x keys are canonical (`cmp`-equal x
-keys are equal, e.g. no `1` beside `1.0`) and whose y values all have a label (`yLabel`: str, or int
-through `str`): the rows of `unpivot(pivot(d))` with a non-`None` z are, as a multiset, exactly the
+keys are equal, e.g. no `1` beside `1.0`) and whose y values all have a label (`yLabel`) and are canonical as far as the
+label goes (`hyk`: no int beside the `cmp`-equal float, whose column keys `'1'` / `1.0` differ — the pivot table has ONE
+column for both, named after the group's representative): the rows of `unpivot(pivot(d))` with a non-`None` z are, as a multiset, exactly the
 `(x, label(y), z)` triples of the rows of `d` with a non-`None` z. -/
 theorem unpivot_pivot_multiset_canonical (t : Table) (x : List String) (y z : String) (zs : List Cell)
     (p u : VTable) (lab : Nat → String) (hn : t.nrows ≠ 0) (hx : x ≠ [])
@@ -565,6 +567,8 @@ theorem unpivot_pivot_multiset_canonical (t : Table) (x : List String) (y z : St
     (hcanon : ∀ i j, i < t.nrows → j < t.nrows →
       cmp (.tuple (xCells t x i)) (.tuple (xCells t x j)) = .eq → xCells t x i = xCells t x j)
     (hlab : ∀ i, i < t.nrows → yLabel (yCell t y i) = some (lab i))
+    (hyk : ∀ i j, i < t.nrows → j < t.nrows →
+      cmp (.tuple [yCell t y i]) (.tuple [yCell t y j]) = .eq → mixedNum (yCell t y i) (yCell t y j) = false)
     (hp : t.pivot x y z .last = some (.ok p)) (hu : p.unpivot x y z = .ok u) :
     ((uRows u x y z).filter fun r => !isNoneV r.2.2).Perm
       (((List.range t.nrows).filter fun i => zs.getD i .none != .none).map fun i =>
@@ -579,7 +583,7 @@ theorem unpivot_pivot_multiset_canonical (t : Table) (x : List String) (y z : St
     have hin : i < t.nrows := List.mem_range.1 (List.mem_filter.1 (hperm.mem_iff.1 hi)).1
     obtain ⟨l, hl, h1, h2⟩ := hxk i hin
     obtain ⟨l', hl', h3, h4⟩ := hlabel i hin
-    rw [h1, ← hcanon i l hin hl h2, yLabel_congr h4 (hlab i hin) h3]
+    rw [h1, ← hcanon i l hin hl h2, yLabel_congr h4 (hyk i l' hin hl' h4) (hlab i hin) h3]
   rw [this]
   exact hperm.map _
 
@@ -605,7 +609,7 @@ theorem unpivot_pivot_defined_str (t : Table) (x : List String) (y z : String) (
       yLabel (tupleGet 0 gy.1) = some (labOf gy) := by
     intro gy hgy
     obtain ⟨s, hs, _⟩ := hkey gy hgy
-    simp [labOf, hs, tupleGet, yLabel]
+    simp [labOf, hs, tupleGet, yLabel, keyName]
   have hnd : (x ++ (listbyG (((listbyG (xyKeys t.nrows (xCells t x) (yCell t y))).map
       fun g => tupleGet x.length g.1).map fun v => Val.tuple [v])).map labOf).Nodup := by
     rw [List.nodup_append]
@@ -615,14 +619,14 @@ theorem unpivot_pivot_defined_str (t : Table) (x : List String) (y z : String) (
       intro a b ha hb hlt heq
       obtain ⟨sa, hsa, _⟩ := hkey a ha
       obtain ⟨sb, hsb, _⟩ := hkey b hb
-      have : sa = sb := by simpa [labOf, hsa, hsb, tupleGet, yLabel] using heq
+      have : sa = sb := by simpa [labOf, hsa, hsb, tupleGet, yLabel, keyName] using heq
       rw [hsa, hsb, this, cmp_self] at hlt
       cases hlt
     · intro a ha b hb hab
       obtain ⟨gy, hgy, rfl⟩ := List.mem_map.1 hb
       obtain ⟨s, hs, hsx⟩ := hkey gy hgy
       apply hsx
-      have : labOf gy = s := by simp [labOf, hs, tupleGet, yLabel]
+      have : labOf gy = s := by simp [labOf, hs, tupleGet, yLabel, keyName]
       rw [← this, ← hab]; exact ha
   have hp := pivot_cell t x y z agg zs _ hn hx hcols hz (optMapM_some_of_forall hlabs) hnd
   obtain ⟨_, hnd', hpe⟩ := pivot_ok_shape t x y z agg zs _ hn hx hcols hz hp
@@ -656,9 +660,14 @@ theorem unpivot_pivot_multiset_str (t : Table) (x : List String) (y z : String) 
   have hlab : ∀ i, i < t.nrows → yLabel (yCell t y i) = some (t.jcellAt y i).skey := by
     intro i hi
     obtain ⟨s, hs, _⟩ := hstr i hi
-    simp [yCell, hs, yLabel, Cell.skey]
+    simp [yCell, hs, yLabel, keyName, Cell.skey]
+  have hyk : ∀ i j, i < t.nrows → j < t.nrows →
+      cmp (.tuple [yCell t y i]) (.tuple [yCell t y j]) = .eq → mixedNum (yCell t y i) (yCell t y j) = false := by
+    intro i j hi _ _
+    obtain ⟨s, hs, _⟩ := hstr i hi
+    simp [yCell, hs, mixedNum]
   have h := unpivot_pivot_multiset_canonical t x y z zs p u (fun i => (t.jcellAt y i).skey)
-    hn hx hcols hz hyz huniq hcanon hlab hp hu
+    hn hx hcols hz hyz huniq hcanon hlab hyk hp hu
   rw [tRows_filter]
   refine h.trans (List.Perm.of_eq ?_)
   apply List.map_congr_left
